@@ -58,7 +58,8 @@ def gen_case(rng, ver, tier, force=None):
         opts = [rng.choice(choices) for _ in range(turns)]
         if all(o is None for o in opts):
             opts[0] = {"rails": {"input": False}}
-    return {"spec": spec, "turns": turns, "kinds": kinds, "V": V, "cid": "c%d" % rng.randint(0, 10**6), "fault": None, "opts": opts}
+    api = "state" if (ver == "v1" and rng.random() < 0.3) else "messages"
+    return {"spec": spec, "turns": turns, "kinds": kinds, "V": V, "cid": "c%d" % rng.randint(0, 10**6), "fault": None, "opts": opts, "api": api}
 
 
 def expected_action_calls(case):
@@ -89,6 +90,7 @@ def run_conversation(case, reuse=0):
     spec = case["spec"]
     app = rails.get_app(spec, reuse=reuse)
     app.cid = case["cid"]
+    app.api = case.get("api", "messages")
     app.V = unpack_V(case)
     app.fault_at = set(case["fault"]) if case.get("fault") else None
     app.acalls = 0
@@ -203,7 +205,7 @@ def judge(case, records, app):
                 rewritten_tokens.append(orig_token)
             # (only when every call uses default options: per-call options change the history-cache key, the
             #  history is then rebuilt from the caller's own raw messages, which legitimately carry earlier originals)
-            if mode in ("dialog", "general", "single_call") and not case.get("opts"):
+            if mode in ("dialog", "general", "single_call") and not case.get("opts") and case.get("api", "messages") == "messages":
                 for tok in rewritten_tokens:
                     if tok == orig_token:
                         continue
